@@ -191,12 +191,21 @@ type rlocker struct{ m *RWMutex }
 func (r rlocker) Lock()   { r.m.RLock() }
 func (r rlocker) Unlock() { r.m.RUnlock() }
 
+// Once is sync.Once per simulation run: a package-level Once that an earlier
+// run of the same process completed (or was frozen in) starts afresh, so that
+// a run is a function of its tape only and not of what ran before it in the
+// process. (The bodies guarded this way in the instrumented packages build
+// caches and are idempotent.)
 type Once struct {
-	m    Mutex
-	done bool
+	m     Mutex
+	done  bool
+	owner *simrt.Sim
 }
 
 func (o *Once) Do(f func()) {
+	if s := simrt.S; s != nil && o.owner != s {
+		o.m, o.done, o.owner = Mutex{}, false, s
+	}
 	if o.done {
 		return
 	}
